@@ -538,7 +538,7 @@ def allclose(a, b, rtol=1e-8, atol=None):
             return False
     lim = abs(a) * rtol
     if atol is not None:
-        lim += atol
+        lim = lim + atol  # not in-place: atol may have more elements than a
 
     try:
         len(d)
